@@ -102,6 +102,16 @@ def idLib : StdNum.Lib :=
     csvHeader := fun _ => none, csvAll := fun _ _ => ⟨[], false⟩, fmtInt := fun _ _ => "", fmtFloat := fun _ _ => "",
     textG := fun _ => "", jsonStr := id }
 
+/-! ### `log`, `pow` (number.go): `math.Log` / `math.Pow` are the parameter `lib` (its float64 answer, possibly NaN) -/
+
+/-- (harness name, Go variable, model for a given math library) -/
+def mathTable : List (String × String × ((Num → Num → StdNum.F64) → Func)) :=
+  [("log", "LogFunc", fun lib => mk (spec2 pNum pNum) .number (StdNum.logImpl lib)),
+   ("pow", "PowFunc", fun lib => mk (spec2 pNum pNum) .number (StdNum.powImpl lib))]
+
+def mathByName (name : String) : Option ((Num → Num → StdNum.F64) → Func) :=
+  (mathTable.find? fun e => e.1 == name).map (·.2.2)
+
 /-- the collection functions proved total end to end, by the names of `Stdlib.byName`, with their Go variables -/
 def collTable : List (String × String) :=
   [("hasindex", "HasIndexFunc"), ("keys", "KeysFunc"), ("values", "ValuesFunc"), ("reverse", "ReverseListFunc"),
